@@ -156,13 +156,62 @@ def c07_3(ctx, r):
     for f2, n, attr, t, kind in attr_stores(ctx, {"_max_batch_time", "_num_processes", "_per_node_batch_size", "_time_based_batching", "_try_add_blocked_jobs"}):
         if f2.cls is not None and f2.cls.name == "_BatchJobs":
             r.check(f2 is init, f"{attr} set only in the constructor", key_of(f2, f"writes {attr}"), f2.loc(n), f"{f2.short} changes {attr}")
-    td = ctx.fn("submitter_params._to_timedelta", "C07.3")
-    txt = ctx.src(td.node).replace(" ", "")
-    okt = all(x in txt for x in ("hours=int(match.group(1))", "minutes=int(match.group(2))", "seconds=int(match.group(3))", "returntimedelta(hours=hours,minutes=minutes,seconds=seconds)"))
-    r.check(okt, "walltime H:M:S is parsed as hours, minutes, seconds", key_of(td, "walltime fields"), td.loc(), "_to_timedelta no longer maps the three walltime fields to hours / minutes / seconds: the batch time limit is wrong by a factor",
-            "sum to at most walltime x processes-per-node")
+    walltime_parse(ctx, r, "C07.3")
     gw = ctx.fn("SubmitterParams.get_wall_time", "C07.3")
     r.check("walltime" in ctx.src(gw.node) and "_to_timedelta(wall_time)" in ctx.src(gw.node), "get_wall_time parses the group's walltime", key_of(gw, "walltime"), gw.loc(), "get_wall_time no longer derives from hpc.walltime")
+
+
+
+def walltime_parse(ctx, r, rid):
+    """_to_timedelta: the regular expression captures the whole hours / minutes / seconds fields of every H:M:S string
+    (decided on the regex syntax tree) and the three groups feed timedelta(hours, minutes, seconds) in that order."""
+    import re._parser as sre
+    from re._constants import AT, CATEGORY, CATEGORY_DIGIT, IN, LITERAL, MAX_REPEAT, MAXREPEAT, SUBPATTERN
+
+    td = ctx.fn("submitter_params._to_timedelta", rid)
+    cfg = ctx.cfg(td)
+    srch = [c for n in cfg.nodes for c in cfg.calls_at(n) if isinstance(c.func, ast.Attribute) and c.func.attr in ("search", "match", "fullmatch") and isinstance(c.func.value, ast.Name)]
+    if len(srch) != 1:
+        raise AnalysisError(rid, f"expected one regex search in {td.short}, found {len(srch)}")
+    mod = td.module
+    pat = None
+    for st in mod.tree.body:
+        if isinstance(st, ast.Assign) and isinstance(st.targets[0], ast.Name) and st.targets[0].id == srch[0].func.value.id and isinstance(st.value, ast.Call) and st.value.args and isinstance(st.value.args[0], ast.Constant):
+            pat = st.value.args[0].value
+    if not isinstance(pat, str):
+        raise AnalysisError(rid, f"pattern of {srch[0].func.value.id} is not a module-level re.compile(<literal>)")
+    items = [(op, av) for op, av in sre.parse(pat) if op is not AT]
+    shape_ok = len(items) == 5 and [op for op, _ in items] == [SUBPATTERN, LITERAL, SUBPATTERN, LITERAL, SUBPATTERN] and items[1][1] == ord(":") and items[3][1] == ord(":")
+    if not shape_ok:
+        raise AnalysisError(rid, f"walltime pattern {pat!r} is not <group>:<group>:<group>")
+    bounds = []
+    for op, av in (items[0], items[2], items[4]):
+        sub = list(av[3])
+        if len(sub) != 1 or sub[0][0] is not MAX_REPEAT:
+            raise AnalysisError(rid, f"a group of {pat!r} is not a greedy repeat")
+        lo, hi, body = sub[0][1]
+        body = list(body)
+        if not (len(body) == 1 and body[0][0] is IN and list(body[0][1]) == [(CATEGORY, CATEGORY_DIGIT)]):
+            raise AnalysisError(rid, f"a group of {pat!r} does not repeat \\d")
+        bounds.append((lo, hi))
+    (hlo, hhi), rest = bounds[0], bounds[1:]
+    r.check(hlo <= 1 and hhi == MAXREPEAT, "the hours group takes every leading digit", key_of(td, f"hours group {{{hlo},{hhi if hhi != MAXREPEAT else ''}}}"), td.loc(),
+            f"the hours group of {pat!r} matches {hlo}..{hhi} digits and the pattern is used with .{srch[0].func.attr}(): for a walltime with more hour digits (e.g. '240:00:00') the match starts inside the "
+            "field and the parsed walltime is far too small - valid multi-day configurations are rejected by check_job_runtimes and the time-based batch limit shrinks",
+            "every valid configuration is accepted")
+    for name, (lo, hi) in zip(("minutes", "seconds"), rest):
+        r.check(lo <= 2 and hi >= 2, f"the {name} group takes two digits", key_of(td, f"{name} group {{{lo},{hi if hi != MAXREPEAT else ''}}}"), td.loc(), f"the {name} group of {pat!r} matches {lo}..{hi} digits: 'MM'/'SS' fields are cut")
+    rets = [n for n in cfg.nodes if n.kind == "stmt" and isinstance(n.ast, ast.Return)]
+    ok = len(rets) == 1 and isinstance(rets[0].ast.value, ast.Call) and ctx.src(rets[0].ast.value.func) == "timedelta" and not rets[0].ast.value.args
+    got = {}
+    if ok:
+        for k in rets[0].ast.value.keywords:
+            v = ctx.guards(td).expand(k.value, rets[0]) if isinstance(k.value, ast.Name) else k.value
+            got[k.arg] = ctx.src(v).replace(" ", "")
+    mv = ctx.src(ctx.stmt_of(td, srch[0]).targets[0]) if isinstance(ctx.stmt_of(td, srch[0]), ast.Assign) else "match"
+    want = {"hours": f"int({mv}.group(1))", "minutes": f"int({mv}.group(2))", "seconds": f"int({mv}.group(3))"}
+    r.check(ok and got == want, "walltime H:M:S is parsed as hours, minutes, seconds", key_of(td, "walltime fields"), td.loc(),
+            f"_to_timedelta builds timedelta({got}) - not hours/minutes/seconds from groups 1/2/3: the batch time limit and the runtime check are wrong by a factor", "sum to at most walltime x processes-per-node")
 
 
 def _limit_ok(form, pol):
